@@ -116,9 +116,24 @@ than `img.length < 2^63`:
                             symbol r_sym of the linked table; calcValue = the accessor's i386 switch `TQ.relCalc`, only
                             when the symbol exists; a symbol index beyond the table: false, value/name/calcValue untouched)
      reloc_resolved_nosymtab   [(Elf_Half)sh_link names no section] false for every k, offset/type/addend from the record
-   NOT done: verneed/verdef through C18's guarded `TQ.needGet/defGet` (the fix refuses vn_next = 0 inside a chain, which the
-   reference reader follows: the two are not equal on all inputs the reader accepts) and the DT_VER*NUM constructor scan
-   (`TQ.dynNum`); by-name through `TQ` needs img < 4 GiB (C18's `Small`); notes are characterised by
+   Part 3 (Props/ComposeTables3.lean, Lemmas/LoadedTables3.lean):
+     verneed_tq_reports_spec / verdef_tq_reports_spec   [occupies file; `VerLinkOk`: the 32-bit sh_link names nothing or a
+                            file-occupying section; decidable] the code AS IT IS after fixes/19 - C18's guarded walkers
+                            `TQ.runQuery (.needGet / .defGet i num no)` - for EVERY cached count and EVERY index returns
+                            `specNeed / specDef img i num no`: none for no >= num; for no < num the reference view
+                            `Spec.needView / defView` of the FILE BYTES (it succeeds) when the chain is well-formed up to
+                            entry no (`needChainWf / defChainWf`, Bool: a record fits, each of the first `no` links is > 0
+                            and stays inside the section, the first aux record lies inside, the name offsets are
+                            terminated strings of the linked table `verTab`), none (a refusal) otherwise.  The guarded
+                            walker and the reference reader differ exactly outside `ChainWf` (e.g. `vn_next = 0`: the
+                            reader stays on the record, the fix refuses - example on `exImg2`, entry 1).
+     vernum_reports_spec / vernum_nodynamic   [di = the FIRST section named ".dynamic" (bounded forall over secName), as in
+                            dynamic_reports_spec] the count the constructors cache, `TQ.dynNum o need`, = `specVerScan`
+                            of the records decoded from that section's file bytes: the Elf_Word-truncated value of the
+                            first reported entry (up to the first DT_NULL) with tag DT_VERNEEDNUM / DT_VERDEFNUM, else 0;
+                            0 when no section has that name.
+   NOT done: the two statements are separate (any `num` / the `num` the constructor finds), not glued into one "accessor
+   object" theorem; by-name through `TQ` needs img < 4 GiB (C18's `Small`); notes are characterised by
    "bytes = encodeNotes ns" (no decoder-side characterisation: a malformed note section is C13.get_note_total / C01).
  * not covered by proof (correspondence only): that Model/IStream.lean is libstdc++ and that
    Model/Load.lean is ELFIO's loader (differential check below); images with an address
@@ -161,9 +176,12 @@ THEOREMS = ["ElfioVerif.C02.layouts_eq_spec", "ElfioVerif.C02.shdr_fields_eq_spe
             "ElfioVerif.ComposeTables.byvalue_reports_spec", "ElfioVerif.ComposeTables.byname_reports_spec",
             "ElfioVerif.ComposeTables.byname_model_reports_spec", "ElfioVerif.ComposeTables.modinfo_reports_spec",
             "ElfioVerif.ComposeTables.verneed_reports_spec", "ElfioVerif.ComposeTables.verdef_reports_spec",
+            "ElfioVerif.ComposeTables.verneed_tq_reports_spec", "ElfioVerif.ComposeTables.verdef_tq_reports_spec",
+            "ElfioVerif.ComposeTables.vernum_reports_spec", "ElfioVerif.ComposeTables.vernum_nodynamic",
             "ElfioVerif.ComposeTables.tq_relGet_core", "ElfioVerif.ComposeTables.reloc_resolved_reports_spec",
             "ElfioVerif.ComposeTables.reloc_resolved_nosymtab"]
-EXTRA_IMPORTS = ["ElfioVerif.Props.Compose", "ElfioVerif.Props.ComposeTables", "ElfioVerif.Props.ComposeTables2"]
+EXTRA_IMPORTS = ["ElfioVerif.Props.Compose", "ElfioVerif.Props.ComposeTables", "ElfioVerif.Props.ComposeTables2",
+                 "ElfioVerif.Props.ComposeTables3"]
 SITES = ["conv", "is_sect_in_seg", "load_s", "sec32_load", "sec64_load", "seg32_load", "seg64_load", "seg32_range", "seg64_range"]
 RULE = ("well-formed images from the independent encoder tools/elfspec.py (random models: 1-9 sections, 0-4 "
         "segments, full-width field values, arbitrary table placement/order/gaps, overlapping segments, entry "
